@@ -26,7 +26,7 @@ func init() {
 	fw.Register(&fw.Prop{
 		ID:     "C12",
 		Builds: []string{"default", "386"}, // the 386 build runs a quarter of the random classes on a 32-bit target
-		Rule: "lane (hook level): message lengths 8..65536 and targets t such that lx = len*t spans 8..2^64-1 including 3^k-1, 3^k, 3^k+1 and the 64-bit edge; s and T are obtained from the real sufficientTrailingZeros/targetHash exactly as Mine does (not asserted); 64-lane bit-plane states with lanes drawn from: random trits, exactly s-2, s-1, s, s+1, 243 trailing zeros, s-1 zeros with hash in {T-1, T, T+1}, hashes whose difficulty equals lx exactly / lx+1 / lx-1, all-zero and all-(-1) hashes, placed at lane 0, lane 63, several lanes, no lane. Oracle: a returned lane i < 64 must have difficulty floor(3^243/h_i) >= lx; a return of 64 means no lane has difficulty > lx. toint: toInt(trits) == 1 + sum d_i 3^i. score: Score(msg) == min(floor(d/len), 2^64-1) with d from the model hash. mine: Mine(1 worker) must return a nonce with Score >= t and no nonce in the 64-blocks before the returned one's block may have difficulty > lx (every skipped nonce is re-hashed by the model); Mine(2..16 workers) soundness; t = 0 returns at once. shared: two demanding Mine calls (lx just below a power of three) and a looping easy one run concurrently on ONE *Worker; every returned nonce must meet its own target. " +
+		Rule: "lane (hook level): message lengths 8..65536 and targets t such that lx = len*t spans 8..2^64-1 including 3^k-1, 3^k, 3^k+1 and the 64-bit edge; s and T are obtained from the real sufficientTrailingZeros/targetHash exactly as Mine does (not asserted); 64-lane bit-plane states with lanes drawn from: random trits, exactly s-2, s-1, s, s+1, 243 trailing zeros, s-1 zeros with hash in {T-1, T, T+1}, hashes whose difficulty equals lx exactly / lx+1 / lx-1, all-zero and all-(-1) hashes, placed at lane 0, lane 63, several lanes, no lane. Oracle: a returned lane i < 64 must have difficulty floor(3^243/h_i) >= lx; a return of 64 means no lane has difficulty > lx. toint: toInt(trits) == 1 + sum d_i 3^i. score: Score(msg) == min(floor(d/len), 2^64-1) with d from the model hash. mine: Mine(1 worker, len*t from 8 up to 3^10 so that scans cover hundreds of 64-nonce blocks) must return a nonce with Score >= t and no nonce in the 64-blocks before the returned one's block may have difficulty > lx (every skipped nonce is re-hashed by a bit-sliced 64-lane model that is self-tested against the single-lane one); Mine(2..16 workers) soundness; t = 0 returns at once. shared: two demanding Mine calls (lx just below a power of three) and a looping easy one run concurrently on ONE *Worker; every returned nonce must meet its own target. " +
 			"Non-trivial: lane cases that reach the big-integer comparison (a lane with exactly s-1 zeros and none with s), mine cases whose scan covered at least one full block, all toint cases with a non-zero high chunk.",
 		Assumptions: []string{"BLAKE2b-256 (x/crypto), math/big", "the Curl-P-81 / b1t6 model in harness/oracle/curlp (self-tested)", "Score's big-integer fall-back (difficulty >= 2^64) needs a hash with >= 41 trailing zeros and is unreachable through Score; only toInt is checked on such vectors"},
 		SelfTest:    curlp.SelfTest,
@@ -464,6 +464,40 @@ func judgeShared(seed uint64, o *fw.Obs) {
 	o.Count("shared-worker executions")
 }
 
+// scanBlocks re-hashes the nonces 0 .. 64*blocks-1 with the bit-sliced model (64 per call) and returns the
+// first one whose difficulty strictly exceeds lx.
+func scanBlocks(data []byte, lx *big.Int, blocks uint64) (uint64, *big.Int, bool) {
+	dg := blake2b.Sum256(data)
+	prefix := curlp.B1T6(dg[:])
+	// a difficulty above lx needs at least s-1 trailing zero trits, s = smallest s with 3^s >= lx
+	sMin := 0
+	for p := big.NewInt(1); p.Cmp(lx) < 0; p.Mul(p, big.NewInt(3)) {
+		sMin++
+	}
+	sMin -= 2
+	ins := make([][]int8, 64)
+	for j := range ins {
+		ins[j] = make([]int8, 243)
+		copy(ins[j], prefix)
+	}
+	var nb [8]byte
+	for b := uint64(0); b < blocks; b++ {
+		for j := range ins {
+			binary.LittleEndian.PutUint64(nb[:], b*64+uint64(j))
+			copy(ins[j][192:], curlp.B1T6(nb[:]))
+		}
+		for j, hsh := range curlp.Hash64(ins) {
+			if curlp.TrailingZeros(hsh) < sMin {
+				continue
+			}
+			if d := difficultyOf(hsh); d.Cmp(lx) > 0 {
+				return b*64 + uint64(j), d, true
+			}
+		}
+	}
+	return 0, nil, false
+}
+
 func judgeMine(data []byte, t uint64, workers int, o *fw.Obs) {
 	n := len(data) + 8
 	lx := new(big.Int).Mul(new(big.Int).SetUint64(t), big.NewInt(int64(n)))
@@ -500,16 +534,13 @@ func judgeMine(data []byte, t uint64, workers int, o *fw.Obs) {
 		if blocks > 0 {
 			o.Nontrivial()
 		}
-		if blocks > 4000 {
+		if blocks > 40000 {
 			o.Inconclusive("single-worker scan of %d blocks is too long to re-hash", blocks)
 			return
 		}
-		for k := uint64(0); k < blocks*64; k++ {
-			binary.LittleEndian.PutUint64(msg[len(data):], k)
-			if d := difficultyOf(powHash(msg)); d.Cmp(lx) > 0 {
-				o.Fail("passover", "Mine(len(data)=%d, target=%d, 1 worker) returned nonce %d (block %d) but nonce %d in the earlier block %d has difficulty %v > len*target = %v", len(data), t, nonce, blocks, k, k/64, d, lx)
-				return
-			}
+		if k, d, found := scanBlocks(data, lx, blocks); found {
+			o.Fail("passover", "Mine(len(data)=%d, target=%d, 1 worker) returned nonce %d (block %d) but nonce %d in the earlier block %d has difficulty %v > len*target = %v", len(data), t, nonce, blocks, k, k/64, d, lx)
+			return
 		}
 		o.Add("mine blocks scanned", int64(blocks))
 		o.Add("mine skipped nonces re-hashed", int64(blocks*64))
@@ -585,6 +616,12 @@ func gen(g *fw.Gen) {
 	}
 	for n := g.ShareOf(200, 10000); n > 0; n-- {
 		g.Emit("reuse", fw.Pack(fw.U64(g.Rng.Uint64())))
+	}
+	// long single-worker mines (tens of thousands of nonces, hundreds of blocks)
+	for n := g.ShareOf(480, 24000); n > 0; n-- {
+		l := g.Rng.Intn(60)
+		lx := 19683 + g.Rng.Intn(40000)
+		g.Emit("mine", fw.Pack(g.Bytes(l), fw.U64(uint64(lx/(l+8))), []byte{1}))
 	}
 	// API level
 	for n := g.ShareOf(250, 12000); n > 0; n-- {
